@@ -75,6 +75,28 @@ def run(pid, tier, seed):
                 vb["deviations"][k] = vb["deviations"].get(k, 0) + n
             summ["runs"] += sm["runs"]
             summ["distinct_nontrivial"] += sm["distinct_nontrivial"]
+    # messages that arrive in serialized form go through a different branch of handle_message (decode, then the same
+    # handler): the decode family's runs are lifecycle runs too (Trace_DecodeDrop extends Trace_Lifecycle)
+    if pid in ("C01", "C04"):
+        trd = os.path.join(w, "batch_decode.ndjson")
+        smd = vlib.harness(["decode", "--out", trd, "--tier", "quick", "--seed", seed])
+        oned = vlib.validate_batch("Trace_DecodeDrop", "Trace_DecodeDrop.cfg", trd, "lifecycle_%s_decode" % pid)
+        log("[V] serialized messages (decode family): %d runs, strict accepted %d, rejected %d" % (oned["runs"], oned["strict_accepted"], len(oned["violations"])))
+        for viol in oned["violations"]:
+            meta = json.loads(viol["run"][0]).get("meta", {})
+            ev = viol.get("lenient_event") or viol.get("strict_event") or "{}"
+            try:
+                j = json.loads(ev)
+                lab = "%s(%s)" % (j.get("a", "?"), j.get("k", j.get("x", "")))
+            except Exception:
+                lab = "?"
+            v.violation("lifecycle/serialized first-unexplained=%s kinds=%s" % (lab, ",".join(meta.get("kinds", []))),
+                        {"family": "decode", "meta": meta, "trace": [json.loads(x) for x in viol["run"]],
+                         "first_unexplained": viol.get("lenient_event_index"), "event": ev})
+        for k in ("runs", "events", "strict_accepted", "lenient_accepted", "tlc_states", "unvalidated"):
+            vb[k] += oned[k]
+        vb["divergences"] += oned["divergences"]
+        summ["runs"] += smd["runs"]
     for name, n in vb["deviations"].items():
         if DEV_OWNER.get(name) == pid:
             v.deviation(name, n)
@@ -121,7 +143,8 @@ def replay(pid, path):
         with open(out, "w") as f:
             for e in rp["trace"]:
                 f.write(json.dumps(e, separators=(",", ":")) + "\n")
-    vb = vlib.validate_batch("Trace_Lifecycle", "Trace_Lifecycle.cfg", out, "replay_" + pid)
+    mod = ("Trace_DecodeDrop", "Trace_DecodeDrop.cfg") if rp.get("family") == "decode" else ("Trace_Lifecycle", "Trace_Lifecycle.cfg")
+    vb = vlib.validate_batch(mod[0], mod[1], out, "replay_" + pid)
     if vb["violations"]:
         log("%s trace is rejected by the specification at: %s" % ("re-executed" if done else "recorded",
             vb["violations"][0].get("lenient_event") or vb["violations"][0].get("strict_event")))
